@@ -1147,6 +1147,21 @@ fn job_layer(rng: &mut Rng, kind: &str, variant: usize, kmax: usize) -> Fals {
             let g = tensor_of_shape(&gs, &rng.vec(shape_numel(&gs), 2));
             check_layer(&mut f, rng, &spec, li, &x, &g, kmax, &format!("layer/{}", kind), &class);
         }
+        "special-relation" => {
+            // parameters in a special relation to each other / the input (netgen::special_relation_layers)
+            let all = crate::netgen::special_relation_layers();
+            let (inp, l) = all[variant % all.len()].clone();
+            let kindname = l.kind();
+            let mut b = NetB::new(inp);
+            if !b.push(rng, l) {
+                return f;
+            }
+            let (spec, shapes) = b.finish();
+            let x = gen_x(rng, shapes[0]);
+            let gs = out_tensor_shape(&spec, 0, &shapes);
+            let g = tensor_of_shape(&gs, &rng.vec(shape_numel(&gs), 2));
+            check_layer(&mut f, rng, &spec, 0, &x, &g, kmax, &format!("layer/{}", kindname), &format!("special-relation-{}", variant % all.len()));
+        }
         "maxpool-flat" => {
             // max-pool fed with the flat output of a dense layer (element count r*r)
             let r = rng.range(2, 5);
@@ -1525,6 +1540,7 @@ pub fn fals_c01(rng: &mut Rng, thorough: bool) -> Fals {
         ("maxpool", 32),
         ("maxpool-flat", 12),
         ("deconv-underflow", 6),
+        ("special-relation", 26),
         ("net-clean", 96),
         ("net-dirty-conv", 48),
         ("net-softmax-ce", 12),
